@@ -33,8 +33,10 @@ def gen_contract_spec(rng, i, pf):
 
 def gen_grid(rng, pf):
     n = rng.randint(pf.get("n_min", 2), pf.get("n_max", 12))
-    if rng.random() < pf.get("p_long", 0.05):
-        n = rng.randint(pf.get("n_max", 12), pf.get("n_long", 40))
+    thorough = core.tier() == "thorough"
+    if rng.random() < pf.get("p_long", 0.05) * (3 if thorough else 1):
+        # thorough tier: more and longer episodes in the tail
+        n = rng.randint(pf.get("n_max", 12), int(pf.get("n_long", 40) * (2 if thorough else 1)))
     t0 = core.parse_t(rng.choice(pf.get("t0s", T0S)))
     style = rng.choice(pf.get("grid_styles", ["regular", "irregular", "irregular", "daily"]))
     gaps = []
